@@ -91,6 +91,7 @@ C05_CLASSES = r'^(count|root|equality|visible|fresh|define-|panic)'
 C07_CLASSES = r'^(resume-|until-)'
 C01_CLASSES = r'^(rule-|functional)'
 C03_CLASSES = r'^(history-|fixpoint)'
+C15_CLASSES = r'^enum-'
 C06_CLASSES = r'^grow'
 
 
@@ -334,6 +335,18 @@ def C20():
     }
 
 
+def C15():
+    gn = gen_native()
+    return {
+        'level': 'exploration', 'parts': [gn], 'samples': [], 'own_classes': C15_CLASSES,
+        'assumptions': [
+            'bounded and partial: programs are the probe theories with enum types (p3: Zero / Succ; p9: Var(Name) / App(Expr, Expr) / Unit); operation sequences as stated in coverage.rule; never counted as proof',
+            'decided: after every close() every element of an enum type has at least one constructor case (so <enum>_case cannot panic), <enum>_cases lists exactly the constructor applications that evaluate to the element, each reported application evaluates to an element equal to it; new_<enum>(Case) returns the existing value of the constructor application or a fresh element and the application evaluates to it afterwards',
+            'NOT decided: "the compiler accepts no rule that could create an enum element other than through a constructor" (static check, eqlog.eql rules evaluated by generated code); the API side of that clause is only observed: the harness has no way to create an enum element except through constructors because the emitted module offers none',
+        ],
+    }
+
+
 def C03():
     gn = gen_native()
     return {
@@ -436,7 +449,7 @@ def C18():
     }
 
 
-PROPERTIES = {'C09': C09, 'C19': C19, 'C13': C13, 'C20': C20, 'C01': C01, 'C03': C03, 'C04': C04, 'C05': C05, 'C06': C06, 'C07': C07, 'C14': C14, 'C08': C08, 'C16': C16, 'C18': C18, 'C11': C11}
+PROPERTIES = {'C15': C15, 'C09': C09, 'C19': C19, 'C13': C13, 'C20': C20, 'C01': C01, 'C03': C03, 'C04': C04, 'C05': C05, 'C06': C06, 'C07': C07, 'C14': C14, 'C08': C08, 'C16': C16, 'C18': C18, 'C11': C11}
 
 NATIVES = {'uf_0': lambda: uf_native(0), 'uf_1': lambda: uf_native(1), 'rt_wb': lambda: rt_native('wb'), 'rt_pt': lambda: rt_native('pt'), 'rt_ts': lambda: rt_native('ts'), 'sn': sn_native, 'sd': sd_native, 'gen': gen_native, 'emit_sn': emit_sn, 'gen_twice': GenTwice, 'compile_twice': compile_twice, 'gen_both_builds': GenBothBuilds, 'compile_ok': compile_ok}
 
